@@ -24,12 +24,52 @@ def has_foreign(ops):
     return any(o.startswith("f_") for o in ops)
 
 
+class ForeignIds:
+    """model ops of third-party steps; keeps track of which foreign entries are present (oldest first)"""
+
+    def __init__(self):
+        self.fast, self.fcl = [], []
+        self.na, self.nc = 100, 200
+
+    def map(self, op):
+        if op == "f_rebind_ast":
+            return [["foreign", "rebindAst"]]
+        if op == "f_rebind_cleanup":
+            return [["foreign", "rebindCleanup"]]
+        if op == "f_add_ast":
+            self.na += 1
+            self.fast.append(self.na)
+            return [["foreign", "addAst", self.na]]
+        if op == "f_rm_ast":
+            return [["foreign", "rmAst", self.fast.pop(0)] if self.fast else ["foreign", "other"]]
+        if op == "f_filter_ast":
+            out = [["foreign", "rmAst", n] for n in self.fast] + [["foreign", "rebindAst"]]
+            self.fast = []
+            return out
+        if op == "f_add_cleanup":
+            self.nc += 1
+            self.fcl.append(self.nc)
+            return [["foreign", "addCleanup", self.nc]]
+        if op == "f_rm_cleanup":
+            return [["foreign", "rmCleanup", self.fcl.pop(0)] if self.fcl else ["foreign", "other"]]
+        if op == "f_clear_ast":
+            self.fast = []
+            return [["foreign", "clearAst"]]
+        if op == "f_drop_pf_ast":
+            return [["foreign", "dropPfAst"]]
+        if op == "f_drop_pf_cleanup":
+            return [["foreign", "dropPfCleanup"]]
+        if op.startswith("f_"):
+            return [["foreign", "other"]]
+        raise ValueError(op)
+
+
 def model_ops(cfg, ops):
     """(model ops, index of the last model op of each real op)"""
     fail = 4 if cfg == "jedi" else None
     mops, marks = [], []
-    fast, fcl = [], []          # foreign ids present, oldest first
-    na, nc = 100, 200
+    fids = ForeignIds()
+    db_ok = True
     for op in ops:
         if cfg == "embedded":
             mops.append(["fresh"])
@@ -46,34 +86,14 @@ def model_ops(cfg, ops):
         elif op == "reload_ext":
             mops.append(["reloadExt", fail])
         elif op == "run_cell":
-            mops.append(["invoke", "astVisit", "ok"])
+            mops.append(["invoke", "astVisit", "ok" if db_ok else "dbLoad"])
         elif op == "complete":
-            mops.append(["invoke", "globalMatches", "ok"])
-        elif op == "f_rebind_ast":
-            mops.append(["foreign", "rebindAst"])
-        elif op == "f_rebind_cleanup":
-            mops.append(["foreign", "rebindCleanup"])
-        elif op == "f_add_ast":
-            na += 1
-            fast.append(na)
-            mops.append(["foreign", "addAst", na])
-        elif op == "f_rm_ast":
-            mops.append(["foreign", "rmAst", fast.pop(0)] if fast else ["foreign", "other"])
-        elif op == "f_filter_ast":
-            for n in fast:
-                mops.append(["foreign", "rmAst", n])
-            fast = []
-            mops.append(["foreign", "rebindAst"])
-        elif op == "f_add_cleanup":
-            nc += 1
-            fcl.append(nc)
-            mops.append(["foreign", "addCleanup", nc])
-        elif op == "f_rm_cleanup":
-            mops.append(["foreign", "rmCleanup", fcl.pop(0)] if fcl else ["foreign", "other"])
-        elif op.startswith("f_"):
+            mops.append(["invoke", "globalMatches", "ok" if db_ok else "dbLoad"])
+        elif op in ("f_break_db", "f_fix_db"):
+            db_ok = op == "f_fix_db"
             mops.append(["foreign", "other"])
         else:
-            raise ValueError(op)
+            mops.extend(fids.map(op))
         marks.append(len(mops) - 1)
     return mops, marks
 
@@ -87,30 +107,62 @@ def case_key(case):
 # ----------------------------------------------------------------------------
 
 def ref_run(config, ops):
-    """enabled-flag after each op.  `jedi`: enable cannot succeed under that configuration."""
-    en, loaded = False, False
+    """The property's reference machine: after each op (enabled, extension loaded, errored, pyflyby's AST
+    transformer still in place, database readable, <auto-import expected for this cell/completion or None>).
+    `jedi`: enable cannot succeed under that configuration.  An internal error (a cell or completion meeting a
+    broken database while enabled) withdraws the importer and marks it errored; plain enable() then refuses,
+    enable(even_if_previously_errored=True) / load_ext / reload_ext re-enable."""
+    en, loaded, errored, intact, db_ok = False, False, False, True, True
     out = []
     can = config != "jedi"
+
+    def enable(even):
+        nonlocal en, errored, intact
+        if en:
+            return
+        if errored and not even:
+            return
+        if can:
+            en, errored, intact = True, False, True
+        else:
+            errored = True
+
     for op in ops:
-        if op in ("enable", "enable_again"):
-            en = en or can
+        auto = None
+        if op == "enable":
+            enable(False)
+        elif op == "enable_again":
+            enable(True)
         elif op == "disable":
             en = False
         elif op == "load_ext":
             if not loaded:
                 loaded = True
-                en = en or can
+                enable(True)
         elif op == "unload_ext":
             if loaded:
                 loaded = False
                 en = False
         elif op == "reload_ext":
             if loaded:
-                en = can
-            else:
-                en = en or can
+                en = False
+            enable(True)
             loaded = True
-        out.append((en, loaded))
+        elif op == "f_break_db":
+            db_ok = False
+        elif op == "f_fix_db":
+            db_ok = True
+        elif op in ("f_clear_ast", "f_drop_pf_ast"):
+            intact = False
+        elif op == "run_cell":
+            auto = en and intact and db_ok
+            if en and intact and not db_ok:
+                en, errored = False, True          # internal error -> the importer withdraws
+        elif op == "complete":
+            auto = en and db_ok
+            if en and not db_ok:
+                en, errored = False, True
+        out.append((en, loaded, errored, intact, db_ok, auto))
     return out
 
 
@@ -148,6 +200,8 @@ class C14(Prop):
         "Pfb.C14.C14_no_residue_foreign",
         "Pfb.C14.C14_once_foreign",
         "Pfb.Hooks.applyD_applyForeign",
+        "Pfb.C14.C14_error_withdrawn_exits",
+        "Pfb.C14.C14_recovers_after_removal",
         "Pfb.C14.D3_leak_unbounded",
         "Pfb.C14.D3_witness_not_reversible",
         "Pfb.C14.D3_witness_not_once",
@@ -174,9 +228,9 @@ class C14(Prop):
     ]
     parallel = False             # the shells live in the lab's own processes
     BATCH = 400
-    quick_cases = 800
+    quick_cases = 400
     thorough_cases = 12000
-    quick_deadline_s = 70
+    quick_deadline_s = 55
     thorough_deadline_s = 780
     rule = ("op sequences of length <= 6 over {enable, enable_again(=enable(even_if_previously_errored=True) via the shell), "
             "disable, load_ext, unload_ext, reload_ext, run_cell, complete} on a fresh real IPython 9 shell per sequence "
@@ -271,10 +325,11 @@ class C14(Prop):
 
     def exhaustive_cases(self, tier, rng):
         out = []
+        general = []
         maxlen = 4 if tier == "thorough" else 3
         for n in range(1, maxlen + 1):
             for ops in itertools.product(OPS, repeat=n):
-                out.append(dict(config="terminal", ops=list(ops)))
+                general.append(dict(config="terminal", ops=list(ops)))
         # the other two configurations: a fixed set
         for cfg in ("jedi", "embedded"):
             for ops in (["enable", "run_cell", "disable", "run_cell"],
@@ -287,11 +342,28 @@ class C14(Prop):
             for ops in (["enable", f, "disable", "run_cell"], [f, "enable", "run_cell", "disable"],
                         ["enable", f, "disable", "enable", "disable", "run_cell"], ["load_ext", f, "reload_ext", f, "unload_ext"]):
                 out.append(dict(config="terminal", ops=ops))
-        for f, g in itertools.product(F_OPS[:8], repeat=2):
+        pairs = list(itertools.product(F_OPS[:8], repeat=2))
+        if tier != "thorough":
+            pairs = rng.sample(pairs, 24)
+        for f, g in pairs:
             out.append(dict(config="terminal", ops=["enable", f, g, "disable", "run_cell"]))
             if tier == "thorough":
                 out.append(dict(config="terminal", ops=[f, "enable", g, "disable", "complete"]))
                 out.append(dict(config="terminal", ops=["enable", f, "disable", g, "enable", "run_cell"]))
+        # round 3: the error-withdrawn state and its exits; third parties removing pyflyby's own entries
+        for start in (["enable"], ["load_ext"]):
+            for hit in ("run_cell", "complete"):
+                for ex in (["enable"], ["enable_again"], ["load_ext"], ["reload_ext"], ["unload_ext", "load_ext"],
+                           ["disable", "enable"], ["unload_ext", "enable"]):
+                    out.append(dict(config="terminal", ops=start + ["f_break_db", hit, "f_fix_db"] + ex + ["run_cell", "complete"]))
+                out.append(dict(config="terminal", ops=start + ["f_break_db", hit, "run_cell", "reload_ext", "run_cell", "f_fix_db",
+                                                                "reload_ext", "run_cell"]))
+        for rm in gen_c14.F_REMOVALS:
+            for ops in (["enable", rm, "disable", "enable", "run_cell"], ["load_ext", rm, "unload_ext", "load_ext", "run_cell"],
+                        ["enable", rm, "run_cell", "complete", "disable", "enable", "run_cell"],
+                        ["enable", rm, "reload_ext", "run_cell"], ["enable", rm, "enable", "disable", "disable", "enable_again", "run_cell"]):
+                out.append(dict(config="terminal", ops=ops))
+        out += general          # targeted sets first: a deadline cut drops general sequences, not these
         for c in load_corpus(self.id):
             self._plan(c)
         return [self._plan(c) for c in out]
@@ -307,8 +379,11 @@ class C14(Prop):
             ops = gen_c14.gen_ops(rng, 6)
             while len(ops) < 3:
                 ops = gen_c14.gen_ops(rng, 6)
-        if cfg != "embedded" and rng.random() < 0.45:
+        r2 = rng.random()
+        if cfg != "embedded" and r2 < 0.35:
             ops = gen_c14.add_foreign(rng, ops)
+        elif cfg == "terminal" and r2 < 0.6:
+            ops = gen_c14.add_errors_and_removals(rng, ops)
         return self._plan(dict(config=cfg, ops=ops))
 
     # -- implementation ----------------------------------------------------------
@@ -350,7 +425,7 @@ class C14(Prop):
             if ops[i] in ("enable", "enable_again", "disable", "load_ext", "unload_ext") and en_before == en_after and changed:
                 F("an op that does not change the enabled state changed patched attributes", i,
                   keys=sorted(changed)[:6])
-            if ops[i] in ("run_cell", "complete") and changed:
+            if ops[i] in ("run_cell", "complete") and changed and not (en_before and not en_after):
                 F("running a cell / completing changed hook attributes", i, keys=sorted(changed)[:6])
             # --- exactly once
             for name in JP_ORDER:
@@ -402,7 +477,9 @@ class C14(Prop):
             else:
                 import collections
                 cnt = collections.Counter(pf_now)
-                if n_pf_enabled is None:
+                if not ref[i][3] or "f_drop_pf_cleanup" in ops[:i + 1]:
+                    pass            # a third party took pyflyby's own entries away: nothing to count
+                elif n_pf_enabled is None:
                     n_pf_enabled = cnt
                 elif cnt != n_pf_enabled:
                     excess = sorted(set((cnt - n_pf_enabled) + (n_pf_enabled - cnt)))
@@ -411,11 +488,12 @@ class C14(Prop):
                 imp = st.get("importer")
                 if imp is not None and imp["state"] != "ENABLED":
                     F("importer not ENABLED while the reference machine is enabled", i, importer=imp)
-            # --- two-state behaviour
+            # --- two-state behaviour (with the error-withdrawn state and third-party removals, see ref_run)
+            auto = ref[i][5]
             if ops[i] == "run_cell":
                 c = st["cell"]
                 want = str(1000 + int(args[i][1].rsplit("_", 1)[1]))
-                if en_after:
+                if auto:
                     if c["err"] or c["err_before"] or c["result"] != want or not c["bound_after"]:
                         F("enabled, but a cell reading a known name was not auto-imported", i, cell=c)
                 else:
@@ -428,10 +506,10 @@ class C14(Prop):
                               stdout=st["stdout"][-200:], plain_stdout=r["stdout"][-200:])
             if ops[i] == "complete":
                 c = st["complete"]
-                if en_after:
+                if auto:
                     if not c["has"]:
                         F("enabled, but completion does not offer the known name", i, complete=c)
-                else:
+                elif not en_before:
                     r = self._ref.get(("complete", args[i][1]))
                     if r is not None and c["matches"] != r["complete"]["matches"]:
                         F("disabled, but completion differs from plain IPython", i, complete=c, plain=r["complete"]["matches"])
@@ -493,14 +571,17 @@ class C14(Prop):
                 wl = [(e[0], rm((e[0], e[1]))) for e in m[mkey]]
                 if gl != wl:
                     return f"step {i} {op}: {lname} impl={gl} model={wl}"
-                # which list object is bound: same pattern of identities as the model's rebind counter
-                go = ri(("list", lname, a["mv"]["hlobj"][lname]))
-                wo = rm(("list", lname, m[mkey + "Obj"]))
-                if go != wo:
-                    return f"step {i} {op}: identity pattern of the {lname} list object impl={go} model={wo}"
+                # a third-party step rebinds the list object exactly when the model says so (pyflyby's own steps may or
+                # may not rebind: only the content bound at the end matters)
+                if op.startswith("f_") and i > 0:
+                    gch = a["mv"]["hlobj"][lname] != isteps[i - 1]["mv"]["hlobj"][lname]
+                    wch = m[mkey + "Obj"] != msteps[i - 1][mkey + "Obj"]
+                    if gch != wch:
+                        return f"step {i} {op}: {lname} rebound to a new list object impl={gch} model={wch}"
             if op == "run_cell":
                 auto = a["cell"]["err"] is None and a["cell"]["bound_after"]
-                if auto != m["auto"] or (m["work"] != auto):
+                broken = not ref_run(cfg, case["ops"])[i][4]
+                if auto != m["auto"] or (not broken and m["work"] != auto):
                     return f"step {i} run_cell: auto-imported impl={auto} model auto={m['auto']} work={m['work']}"
             if op == "complete":
                 has = a["complete"]["has"]
@@ -510,7 +591,7 @@ class C14(Prop):
 
     # -- bookkeeping ---------------------------------------------------------------
     def nontrivial_key(self, case, obs):
-        if any(e for e, _ in ref_run(case.get("config", "terminal"), case["ops"])) or case.get("config") != "terminal":
+        if any(t[0] for t in ref_run(case.get("config", "terminal"), case["ops"])) or case.get("config") != "terminal":
             return (case.get("config", "terminal"), tuple(case["ops"]))
         return None
 
@@ -527,8 +608,14 @@ class C14(Prop):
         inc("len_%d" % len(case["ops"]))
         for op in case["ops"]:
             inc("op_" + op)
-        cyc = sum(1 for a, b in zip([(False, False)] + ref_run(case.get("config", "terminal"), case["ops"]),
-                                    ref_run(case.get("config", "terminal"), case["ops"])) if not a[0] and b[0])
+        rr = ref_run(case.get("config", "terminal"), case["ops"])
+        cyc = sum(1 for a, b in zip([(False,)] + rr, rr) if not a[0] and b[0])
+        if any(t[2] for t in rr):
+            inc("cases_with_error_withdrawal")
+        if any(not t[3] for t in rr):
+            inc("cases_with_third_party_removal")
+        if any(o.startswith("f_") for o in case["ops"]):
+            inc("cases_with_third_party_steps")
         inc("enable_transitions_%d" % min(cyc, 3))
 
     # -- known-finding families ------------------------------------------------------
